@@ -366,17 +366,6 @@ class Sim:
     def bump(self, k, v=1):
         self.stats[k] = self.stats.get(k, 0) + v
 
-    def faulty_call(self, world, op, fn, api):
-        flt = op.get('fault')
-        if not flt:
-            try:
-                return 'ok', fn()
-            except Exception as e:
-                raise Violation('unexpected_exception', api, f'{type(e).__name__}: {e}')
-        kind = flt['kind']
-        self.bump(f'fault.{kind}.configured')
-        return kind, None
-
     # -------------------------------------------------------------- single measurement with all oracles
     def check_measurement(self, psi, S, bitstr, prob, post, api, scripted_pick=None, sut_prob_for_pick=None):
         n = psi.shape[0].bit_length() - 1
